@@ -1,6 +1,7 @@
 package main
 
 import (
+	"github.com/fxamacker/cbor/v2"
 	"context"
 	"fmt"
 	"math/big"
@@ -191,6 +192,8 @@ func (p c06Pkt) bytes(c *Ctx) []byte {
 func (p c06Pkt) coq() string {
 	return fmt.Sprintf("(mkPkt %d %d%%nat %s %s %d %d %d)", p.ver, p.length, ipN(p.src), ipN(p.dst), p.proto, p.sport, p.dport)
 }
+
+var outSeen bool
 
 func runC06(c *Ctx) error {
 	c.Res.Rule = "generated configurations (0..4 services over all known and some unknown URL schemes, explicit/default/absent ports, public/friends/for with friend names, raw addresses, unknown names and out-of-range addresses, duplicate services and duplicate friend names, isolation on/off) " +
@@ -513,6 +516,112 @@ func runC06(c *Ctx) error {
 		}
 		c.CoqSetup("Prelude Gen SeqCorr Policy PolicyCorr", "c06_ocase", "c06_ook")
 		c.Case(fmt.Sprintf("(%s,%s,%s,%s)", g.coq(selfID.IP), coqBool(handle), ipN(apiAddr), coqList(osteps)), map[string]any{"kind": "outbound", "cfg": g.coq(selfID.IP), "steps": len(osteps)})
+
+		// ---------- histories on one 5-tuple: inbound, outbound with mirrored ports, and authentic error
+		// pings from the sender that re-mark the cached connection state ----------
+		if handle {
+			R.ro.VerifClearConnStates()
+			var hsteps []string
+			var htrace []string
+			si := c.Rng.IntN(len(senders))
+			S := senders[si]
+			proto := []int{6, 17}[c.Rng.IntN(2)]
+			sport, dport := 2000+c.Rng.IntN(3), ports[c.Rng.IntN(len(ports))]
+			usedErr := map[int]bool{}
+			sendIn := func() {
+				pk := c06Pkt{ver: 6, src: S.id.IP, dst: selfID.IP, proto: proto, sport: sport, dport: dport, length: 60}
+				f, err := sb.NewFrameV1(S.id.IP, selfID.IP, frame.NetworkTraffic, nil, pk.bytes(c), nil)
+				if err != nil {
+					return
+				}
+				if err := sealers[si](f); err != nil {
+					f.ReturnToPool()
+					return
+				}
+				d, _ := f.FrameDataWithMargins(0, 0)
+				data := append([]byte(nil), d...)
+				f.ReturnToPool()
+				R.inject(data, nil)
+				delivered := false
+				for _, tf := range R.tunFrames() {
+					delivered = true
+					tf.ReturnToPool()
+				}
+				R.tunRaw()
+				w.queue = nil
+				c.Eval()
+				hsteps = append(hsteps, fmt.Sprintf("(HIn true %s %s %s,%s)", ipN(S.id.IP), ipN(selfID.IP), pk.coq(), coqBool(delivered)))
+				htrace = append(htrace, fmt.Sprintf("in(delivered=%v)", delivered))
+				// the property: delivered only if a service admits this sender on this protocol and port
+				if delivered && !g.admitsSpec(proto, dport, S.id.IP) && !outSeen {
+					c.Violate("after a history of error pings / other traffic on the same 5-tuple a packet was handed to the local interface although no configured service admits it", "inbound-leak-history",
+						map[string]any{"cfg": g.coq(selfID.IP), "history": htrace})
+				}
+			}
+			for k, n := 0, 3+c.Rng.IntN(5); k < n; k++ {
+				switch c.Rng.IntN(4) {
+				case 0, 1:
+					sendIn()
+				case 2:
+					// an authentic error ping from the sender
+					code := []int{1, 3, 4}[c.Rng.IntN(3)]
+					if usedErr[code] {
+						continue
+					}
+					usedErr[code] = true
+					spec := pingSpec{from: S.id, dst: selfID.IP, msgType: frame.RouterPing, pingType: "error", pingCode: uint8(code), seqTime: nextCraftTime(), pingID: uint64(500 + k)}
+					switch code {
+					case 1:
+						spec.body, _ = cbor.Marshal(map[string]netip.Addr{"u": S.id.IP})
+						hsteps = append(hsteps, fmt.Sprintf("(HMarkRouter %s 2,false)", ipN(S.id.IP)))
+					default:
+						spec.body, _ = cbor.Marshal(map[string]any{"d": S.id.IP, "t": proto, "p": sport})
+						hsteps = append(hsteps, fmt.Sprintf("(HMarkConn %s %d %d %d,false)", ipN(S.id.IP), proto, sport, map[int]int{3: 4, 4: 5}[code]))
+					}
+					if d, err := craftPing(spec); err == nil {
+						R.inject(d, nil)
+						w.queue = nil
+						R.tunRaw()
+						c.Eval()
+					}
+					htrace = append(htrace, fmt.Sprintf("error-ping(code=%d)", code))
+				default:
+					// a local packet to the sender with mirrored ports (same connection key)
+					pk := c06Pkt{ver: 6, src: selfID.IP, dst: S.id.IP, proto: proto, sport: dport, dport: sport, length: 60}
+					raw := pk.bytes(c)
+					ps := R.builder.GetPooledSlice(len(raw))
+					buf := ps[:len(raw)]
+					copy(buf, raw)
+					var before uint64
+					for _, cs := range R.ro.VerifConnStates() {
+						if cs.RemoteIP == S.id.IP && int(cs.Protocol) == proto && int(cs.LocalPort) == dport && int(cs.RemotePort) == sport {
+							before = cs.DataOut
+						}
+					}
+					_ = R.ro.VerifHandleTunPacket(buf)
+					w.queue = nil
+					R.tunRaw()
+					c.Eval()
+					allowed := false
+					for _, cs := range R.ro.VerifConnStates() {
+						if cs.RemoteIP == S.id.IP && int(cs.Protocol) == proto && int(cs.LocalPort) == dport && int(cs.RemotePort) == sport {
+							allowed = cs.DataOut > before && cs.Status == 1
+						}
+					}
+					if allowed {
+						outSeen = true // return traffic of an admitted outbound flow is admitted by connection state (observation, DESIGN)
+					}
+					hsteps = append(hsteps, fmt.Sprintf("(HOut %s,%s)", pk.coq(), coqBool(allowed)))
+					htrace = append(htrace, fmt.Sprintf("out(admitted=%v)", allowed))
+				}
+			}
+			sendIn()
+			outSeen = false
+			c.CoqSetup("Prelude Gen SeqCorr Policy PolicyCorr", "c06_hcase", "c06_hok")
+			c.Case(fmt.Sprintf("(%s,%s,%s,%s)", g.coq(selfID.IP), coqBool(handle), ipN(apiAddr), coqList(hsteps)), map[string]any{"kind": "history", "history": htrace})
+			c.Count("history")
+			c.NonTrivial("hist/" + strings.Join(htrace, ","))
+		}
 	}
 	_ = strings.Join
 	return nil
